@@ -1,4 +1,5 @@
 import CookModel.Basic.Arith
+import CookModel.Basic.Proto
 /-
   Model of `cooklang::quantity::{Number, Value}` (src/quantity.rs).
 -/
@@ -18,7 +19,7 @@ def Number.value {α} [Arith α] : Number α → α
 inductive Value (α : Type) where
   | number (n : Number α)
   | range (s e : Number α)
-  | text (t : String)
+  | text (t : List Char)
 deriving Repr, Inhabited, DecidableEq
 
 def Value.isText {α} : Value α → Bool
@@ -61,6 +62,6 @@ def Number.render {α} [Arith α] : Number α → String
 def Value.render {α} [Arith α] : Value α → String
   | .number n => s!"(num {n.render})"
   | .range s e => s!"(range {s.render} {e.render})"
-  | .text t => s!"(text {t.toList.map (·.toNat)})"
+  | .text t => s!"(text {Proto.renderText t})"
 
 end Cook
